@@ -414,6 +414,9 @@ func (l *linkedBuffer) Peek(size int) ([]byte, error) {
 }
 
 func (l *linkedBuffer) Discard(size int) (n int, err error) {
+	if size <= 0 {
+		return
+	}
 	if l.len < size {
 		if err = l.stream.readMore(size); err != nil {
 			return
